@@ -40,7 +40,9 @@ func genC13Chain(r *hx.Rng) *c01Gen {
 		}
 		ms := make([]string, 2)
 		for f := range ms {
-			switch r.Intn(5) {
+			switch r.Intn(6) {
+			case 5:
+				ms[f] = "#" + strconv.Itoa(3000+i)
 			case 0, 1:
 				ms[f] = "S" + strconv.Itoa(i)
 			case 2:
@@ -67,7 +69,7 @@ func init() {
 			old(w, rng, tier)
 			n := 60
 			if tier == "thorough" {
-				n = 1200
+				n = 400
 			}
 			r2 := hx.NewRng(rng.U64())
 			for i := 0; i < n; i++ {
